@@ -150,10 +150,16 @@ func (sf *SlotFlow) Final(act *CEResult) map[string][]SlotWrite {
 				case *ssa.Call:
 					if bi, ok := x.Call.Value.(*ssa.Builtin); ok {
 						if bi.Name() == "copy" && len(x.Call.Args) == 2 {
+							k := ""
 							if ld, isLd := x.Call.Args[0].(*ssa.UnOp); isLd && ld.Op == token.MUL {
-								if k := sf.SlotOf(act, ld.X); k != "" {
-									st[k] = []SlotWrite{{In: x, Act: act, Val: act.Of(x.Call.Args[1]), Src: x.Call.Args[1], Copy: true}}
-								}
+								k = sf.SlotOf(act, ld.X)
+							}
+							// the destination may have been handed down as the slot's current storage
+							if dv := act.Of(x.Call.Args[0]); k == "" && dv.K == CSym && len(dv.S) > 5 && dv.S[:5] == "slot:" {
+								k = dv.S[5:]
+							}
+							if k != "" {
+								st[k] = []SlotWrite{{In: x, Act: act, Val: act.Of(x.Call.Args[1]), Src: x.Call.Args[1], Copy: true}}
 							}
 						}
 						continue
